@@ -294,7 +294,8 @@ class Signals:
         """
         result = False
         handlers = getattr(obj, self._signal_attr, {}).get(name, [])
-        for _key, callback, user_arg, (weak_args, user_args) in handlers:
+        # iterate over a snapshot: handlers may connect or disconnect handlers (also themselves) while being called
+        for _key, callback, user_arg, (weak_args, user_args) in list(handlers):
             result |= self._call_callback(callback, user_arg, weak_args, user_args, args)
         return result
 
